@@ -285,6 +285,10 @@ def _run_unit(unit, repo, rlimit, seed, threads, wd, out_path, t0):
             level = 'contract' if ex else 'lemma'
             if ex and line in glines:
                 level = 'hint'
+            if ex and level == 'contract' and ('/*vxdbg*/' in src or src.startswith('debug_assert!')):
+                # the code's own debug assertion could not be proved: a sanity check of the implementation, not a clause of the
+                # property's contract (a redundant debug_assert! added to correct code needs new invariants, nothing else)
+                level = 'debug-assert'
             if ex and (ex.get('name') in lost_fns or ex.get('label') in lost_fns):
                 level = 'hint-lost'    # hints of this function were dropped (lost anchors): a failure may just be a missing hint
             res['failures'].append({'level': level,
